@@ -76,3 +76,16 @@ pub fn fill_buffer<R: std::io::Read>(
 pub fn normalize_lines_crlf(s: &str) -> String {
     crate::normalize_lines::normalize_lines(s, crate::line_writer::LineBreak::Crlf).to_string()
 }
+
+/// `crypto::aead::aead_setup_rfc9580`: HKDF info, message key and initial nonce of a SEIPDv2 packet.
+pub fn aead_setup_rfc9580(
+    sym_alg: crate::crypto::sym::SymmetricKeyAlgorithm,
+    aead: crate::crypto::aead::AeadAlgorithm,
+    chunk_size: crate::crypto::aead::ChunkSize,
+    salt: &[u8],
+    ikm: &[u8],
+) -> ([u8; 5], Vec<u8>, Vec<u8>) {
+    let (info, key, nonce) =
+        crate::crypto::aead::aead_setup_rfc9580(sym_alg, aead, chunk_size, salt, ikm);
+    (info, key.to_vec(), nonce)
+}
